@@ -106,6 +106,45 @@ def _is_site(a, site):
     return x[0] == "call" and len(x) > 3 and x[3] == site
 
 
+def _closure_keeps_receiver_only(facts, ft, agg, fields):
+    """the per-thread reference captured in closure fields `fields`: None if (a) the closure value is handed directly to
+    one std adaptor call of the creating function, (b) that function returns nothing that could hold the closure, and
+    (c) the closure body uses the captured reference only as the receiver of projection methods; else the reason"""
+    from ..query import closure_sites
+    cpath = agg[2]
+    sites = closure_sites(facts, cpath)
+    if len(sites) != 1:
+        return "closure value used at %d places" % len(sites)
+    _f, c, _i, _a = sites[0]
+    callee = c.callee or ""
+    if callee in facts.fns or not (callee.startswith("std::") or callee.startswith("core::") or callee.startswith("<")):
+        return "closure passed to %s" % callee
+    rt = ft.fn["ret_ty"]
+    if "{closure" in rt or "impl " in rt or "Map<" in rt or "dyn " in rt:
+        return "the function returns %s, which may carry the closure" % rt
+    fc = fn_terms(facts, cpath)
+
+    def is_cap(x):
+        while x[0] in ("ref", "deref"):
+            x = x[2] if x[0] == "ref" else x[1]
+        return x[0] == "field" and x[2] in fields and (x[1] == ("param", 1) or (x[1][0] == "deref" and x[1][1] == ("param", 1)))
+    for c2 in fc.calls():
+        for ai, a in enumerate(c2.args):
+            if is_cap(a):
+                if ai != 0 or not (c2.callee or "").startswith("a5::projections::dodecahedron::DodecahedronProjection::"):
+                    return "inside the closure it is passed to %s as argument %d" % (c2.callee, ai)
+    for b in sorted(fc.cfg.reach):
+        for i, st in enumerate(fc.blocks[b]["stmts"]):
+            if st["k"] == "assign" and st["rv"]["k"] == "aggregate":
+                t = fc.rvalue(st["rv"], b, i)
+                if t[0] == "agg" and any(is_cap(o) for o in t[3]):
+                    return "inside the closure it is stored into an aggregate"
+    for rb in fc.return_blocks():
+        if is_cap(fc.return_term(rb)):
+            return "the closure returns it"
+    return None
+
+
 def check_purity(facts, run, eff, cg, selftest):
     # ---------------- P1 statics
     for sp, s in sorted(facts.statics.items()):
@@ -659,6 +698,13 @@ def check_confinement(facts, run, eff, cg):
                     if st["k"] == "assign" and st["rv"]["k"] == "aggregate":
                         t = ft.rvalue(st["rv"], b, i)
                         if t[0] == "agg" and any(_is_site(o, site) for o in t[3]):
+                            if t[1] == "closure":
+                                bad_use = _closure_keeps_receiver_only(facts, ft, t, [k for k, o in enumerate(t[3]) if _is_site(o, site)])
+                                if bad_use is None:
+                                    continue   # captured by a closure that is consumed here and only calls methods on it
+                                okall = False
+                                why.append("captured by closure: " + bad_use)
+                                continue
                             okall = False
                             why.append("stored into %s" % st["rv"].get("adt", st["rv"]["agg"]))
             for rb in ft.return_blocks():
